@@ -227,9 +227,11 @@ def check(pid, tier, only_cfg=None, quiet=False):
         "wall_s": round(time.time() - t0, 2),
         "violations": len(new_violations),
     }
-    os.makedirs(os.path.join(HERE, "evidence"), exist_ok=True)
+    # VERIF_EVIDENCE_DIR: used by seeded/run_seeds.sh so that runs against a deliberately broken tree do not overwrite evidence/
+    edir = os.path.join(HERE, os.environ.get("VERIF_EVIDENCE_DIR", "evidence"))
+    os.makedirs(edir, exist_ok=True)
     if only_cfg is None:
-        with open(os.path.join(HERE, "evidence", f"{pid}.json"), "w") as f:
+        with open(os.path.join(edir, f"{pid}.json"), "w") as f:
             json.dump(evidence, f, indent=1, default=str)
 
     # ---------------------------------------------------------------- report
